@@ -630,8 +630,9 @@ var (
 	labelVocab = []string{"lbl", "lbl", "a b", "a&b=c", "50%", "a+b", "tag#1", "é",
 		`a\\b`, `q\"r`, `l\nf`, `t\tb`, `\u007bz`,
 		`b\u0007l`, `u\u001fs`, `d\u007fl`, `p\udb40\udc01e`,
-		`\u0020lead`, `trail\u0020`, `\u00a0nb`, `\u0020`} // bell, unit separator, DEL, a non-printable rune above the BMP
-	pageVocab   = []string{"2", "2", "10", "x y", "a&b", "1+1"}
+		`\u0020lead`, `trail\u0020`, `\u00a0nb`, `\u0020`, // bell, unit separator, DEL, a non-printable rune above the BMP
+		`say \"hi\"`, `5\"`, `\"`, `end\\`, `a%41b`, `%20x`, `x%26y&z`} // a quote or a backslash at the very end; text that looks percent-encoded
+	pageVocab   = []string{"2", "2", "10", "x y", "a&b", "1+1", "%20x", "a%41b"}
 	filterVocab = []string{
 		`{"f":"x","o":"=","v":"a"}`,
 		`{"f":"y","o":"<","v":3}`,
@@ -654,6 +655,10 @@ var (
 		`{"o":"and","v":[1,"a"]}`,
 		`{"f":1}`,
 		`{"o":"and","v":[{}]}`,
+		// groups without any list of members at all
+		`{"o":"and"}`,
+		`{"o":"or","f":"x"}`,
+		`{"o":"and","v":[{"o":"or"}]}`,
 	}
 )
 
